@@ -1,7 +1,7 @@
 """C19 — a peer receives the sender's keyspace state unchanged."""
 ID = 'C19'
 RULE = ('one case = 2 real nodes over loopback RPC; the sender\'s keyspace state is built by a generated history (empty; tombstone-only; puts/deletes from up to 4 origins through both sources via deliveries and repairs; purged; aged states whose tombstones are old enough to be purged, fetched before and after the purge with no write in between; '
-        'or `bulk` states of 100-20 000 entries); the receiver obtains it through the real ReplicationClient::get_state (GetState handler -> Serialize -> frame -> DataView -> nested unchecked decode) and the received set is '
+        'or `bulk` states of 100-20 000 entries, and 64 000-200 000 entries: replies of 1-3.4 MB); the receiver obtains it through the real ReplicationClient::get_state (GetState handler -> Serialize -> frame -> DataView -> nested unchecked decode) and the received set is '
         'compared with the sender\'s own state: all live ids, all tombstones, all stamps, and the per-origin accept/refuse cut-offs (bisected with will_apply); small states are also compared with the Lean cluster model. '
         'Malformed stream: a peer answering GetState with a CRC-valid frame whose nested bytes are empty / truncated / garbage, whose envelope points outside the message or declares a length of 1 GiB (D24), or whose root is misplaced by one stray byte in front of the honest reply (D35), must produce an error - not a crash. non-trivial = the transferred state has both live entries and tombstones; distinct by hash')
 ASSUMPTIONS = ['rkyv round trip of the set is a codec assumption for the Lean model; memory safety and alignment of the zero-copy access are runtime facts, observed (debug build: misaligned access panics) not proved']
@@ -86,7 +86,12 @@ def gen_aged(rng, idx):
 def generate(rng, tier):
     n = dict(quick=120, thorough=4000, search=600)[tier]
     cases = [gen_case(rng.fork(), i, big=(i % 6 == 0)) for i in range(n)]
-    return cases + [gen_aged(rng.fork(), n + i) for i in range(dict(quick=30, thorough=800, search=100)[tier])]
+    cases = cases + [gen_aged(rng.fork(), n + i) for i in range(dict(quick=30, thorough=800, search=100)[tier])]
+    # "for states of any size": states whose reply is larger than anything the reader reserves ahead (1 MiB, D33) - 70 000 to
+    # 200 000 entries, 1.2 to 3.4 MB on the wire in dozens of DATA frames
+    for size in ([100000] if tier != 'thorough' else [64000, 70000, 100000, 200000]):
+        cases.append(['case %d cluster' % len(cases), 'nodes 2', 'bulk 0 %d %d' % (size, rng.below(1 << 30)), 'localstate 0', 'fetchstate 1 0', 'end'])
+    return cases
 
 
 BULK_CASE = set()
